@@ -443,6 +443,137 @@ def work_monotone(item):
   return res
 
 
+# ---------------------------------------------------------------------------
+# lines produced BY gfapy (merged segments, copies of multiply, converted
+# lines, clones) are lines of a Gfa at level v like any other: an invalid
+# value assigned to them is reported as the level demands
+
+DERIVED_DOCS = {
+    "gfa1-star": ("gfa1", ["S\tA\t*\tLN:i:4", "S\tB\t*\tLN:i:4", "S\tC\t*\tLN:i:4",
+                           "L\tA\t+\tB\t+\t1M", "L\tB\t+\tC\t+\t1M",
+                           "L\tC\t+\tC\t-\t1M"]),
+    "gfa1-seq": ("gfa1", ["S\tA\tACGT", "S\tB\tGTTA", "S\tC\tAACC",
+                          "L\tA\t+\tB\t+\t1M", "L\tB\t+\tC\t+\t1M",
+                          "L\tC\t+\tC\t-\t1M", "C\tA\t+\tC\t+\t0\t2M",
+                          "P\tp\tA+,B+\t1M"]),
+    "gfa2-star": ("gfa2", ["S\ta\t4\t*", "S\tb\t4\t*", "S\tc\t4\t*",
+                           "E\t*\ta+\tb+\t3\t4$\t0\t1\t1M",
+                           "E\te2\tb+\tc+\t3\t4$\t0\t1\t1M",
+                           "E\t*\tc+\tc-\t4$\t4$\t4$\t4$\t*"]),
+    "gfa2-seq": ("gfa2", ["S\ta\t4\tACGT", "S\tb\t4\tGTTA", "S\tc\t4\tAACC",
+                          "E\t*\ta+\tb+\t3\t4$\t0\t1\t1M",
+                          "E\te2\tb+\tc+\t3\t4$\t0\t1\t1M",
+                          "O\to\ta+ b+", "F\ta\tr+\t0\t2\t0\t2\t*"]),
+}
+DERIVED_OPS = ("merge", "multiply", "convert", "convert-lines", "clone-add")
+
+
+def derived_lines(name, vlevel, op):
+  """(Gfa that holds the derived lines, [derived lines])"""
+  version, lines = DERIVED_DOCS[name]
+  g = gfapy.Gfa(lines, version=version, vlevel=vlevel)
+  before = set(id(l) for l in g.lines)
+  if op == "merge":
+    g.merge_linear_paths()
+    return g, [l for l in g.lines if id(l) not in before]
+  if op == "multiply":
+    g.multiply(g.segment_names[-1], 3)
+    return g, [l for l in g.lines if id(l) not in before]
+  if op == "convert":
+    c = g.to_gfa2() if version == "gfa1" else g.to_gfa1()
+    return c, list(c.lines)
+  if op == "convert-lines":
+    out = []
+    for l in g.lines:
+      try:
+        out.append(l.to_gfa2() if version == "gfa1" else l.to_gfa1())
+      except gfapy.Error:
+        pass
+    return None, [l for l in out if l is not None]
+  if op == "clone-add":
+    s = g.segment(g.segment_names[0])
+    c = s.clone()
+    c.name = "q9"
+    g.add_line(c)
+    return g, [c]
+  raise KeyError(op)
+
+
+def derived_case(name, vlevel, op):
+  probs = []
+  g, ls = derived_lines(name, vlevel, op)
+  if g is not None and g.vlevel != vlevel:
+    probs.append(("derived-gfa-level", "{} of a Gfa at level {} gives a Gfa "
+                  "at level {}".format(op, vlevel, g.vlevel)))
+  for l in ls:
+    if l.vlevel != vlevel:
+      probs.append(("derived-line-level", "{}: line [{}] is at level {} in "
+                    "a Gfa at level {}".format(op, str(l).replace("\t", " "),
+                                               l.vlevel, vlevel)))
+      break
+  # behaviour, not just the attribute: an invalid tag value
+  for l in ls:
+    if l.record_type in ("#",):
+      continue
+    err = None
+    try:
+      l.set("xz", "a b")
+      l.set_datatype("xz", "i")
+      l.set("xz", "1_0")
+    except gfapy.Error as e:
+      err = e
+    if vlevel >= 3 and err is None:
+      probs.append(("invalid-assignment-not-reported-at-level-3",
+                    "{}: [{}] accepted xz:i:1_0".format(
+                        op, str(l).split("\t")[0])))
+      break
+    if vlevel == 2 and err is None:
+      flagged = False
+      try:
+        flagged = "INVALID" in str(l)
+      except gfapy.Error:
+        flagged = True
+      if not flagged:
+        probs.append(("invalid-value-written-at-level>=2",
+                      "{}: [{}] written without complaint".format(
+                          op, str(l).replace("\t", " "))))
+        break
+    try:
+      l.delete("xz")
+    except gfapy.Error:
+      pass
+  return probs
+
+
+def work_derived(item):
+  res = new_result()
+  found = {}
+  name, op = item
+  for vlevel in (0, 1, 2, 3):
+    res["evaluations"] += 1
+    res["transitions"] += 3
+    try:
+      with guard(10.0):
+        probs = derived_case(name, vlevel, op)
+    except HarnessTimeout:
+      probs = [("timeout", "")]
+    except gfapy.Error as e:
+      probs = [("derived-operation-raises", "{} at level {}: {}".format(
+          op, vlevel, type(e).__name__))]
+    res["states"].add(h(("derived", name, op, vlevel)))
+    res["outcomes"].add("derived:" + ("ok" if not probs else probs[0][0]))
+    for cl, det in probs:
+      k = (cl, "derived", op)
+      w = {"kind": "derived", "name": name, "op": op, "vlevel": vlevel,
+           "clause": cl}
+      size = (vlevel, name)
+      old = found.get(k)
+      if old is None or size < old[0]:
+        found[k] = (size, w, det)
+  res["found"] = found
+  return res
+
+
 def chunks(lst, n):
   for i in range(0, len(lst), n):
     yield lst[i:i + n]
@@ -465,6 +596,9 @@ def vkey(w):
             "program": ",".join(w["prog"])}
   if w["kind"] == "levels":
     return {"family": w["family"], "document": "\n".join(w["lines"])}
+  if w["kind"] == "derived":
+    return {"kind": "derived", "document": w["name"], "operation": w["op"],
+            "vlevel": str(w["vlevel"])}
   return {"what": w["what"], "input": w["text"]}
 
 
@@ -507,6 +641,10 @@ def run(ctx):
   absorb(ctx.pmap(work_programs, [(i, c) for i in range(len(FIELDS))
                                   for c in (False, True)], chunksize=1))
   absorb(ctx.pmap(work_life, list(range(len(FIELDS))), chunksize=1))
+  absorb(ctx.pmap(work_derived, [(n, o) for n in sorted(DERIVED_DOCS)
+                                 for o in DERIVED_OPS], chunksize=1))
+  ctx.alphabet["derived_lines"] = {"documents": DERIVED_DOCS,
+                                   "operations": list(DERIVED_OPS)}
   ctx.bound_completed = {"documents": len(docs), "program_length": 3,
                          "lifecycle_programs": len(LIFE_PROGRAMS)}
   ctx.sample({"program": ["set xx='1_0'", "get", "validate"], "line": "S\tA\t*"})
@@ -517,6 +655,13 @@ def run(ctx):
 
 def replay(w, ctx):
   out = []
+  if w["kind"] == "derived":
+    try:
+      probs = derived_case(w["name"], w["vlevel"], w["op"])
+    except gfapy.Error as e:
+      probs = [("derived-operation-raises", type(e).__name__)]
+    return [mkviolation(cl, vkey(w), w, "", det, "") for cl, det in probs
+            if cl == w["clause"]]
   if w["kind"] == "life":
     try:
       trace, probs = run_life(w["idx"], w["vlevel"], tuple(w["prog"]), w["mode"])
